@@ -26,6 +26,12 @@
 (*    define      (set 'counter (+ counter 1)) private state               *)
 (*    read        print the literal again                                  *)
 (*    reload      load the Program again in the same runtime               *)
+(*    hostwiden   the runtime's embedder widens ITS copy of the formal     *)
+(*                argument list of a builtin registered from a Go table    *)
+(*                shared by all runtimes (a per-environment formals list   *)
+(*                is storage its one owner may write, lisp/env.go)         *)
+(*    hostcall    that builtin called with the extra argument: accepted    *)
+(*                only in a runtime that widened its own copy              *)
 (* Interleaving of the runtimes' operations is the only nondeterminism.    *)
 (*                                                                         *)
 (*   ProgramFrozen  every Program backing equals its parse-time content    *)
@@ -49,7 +55,9 @@ CONSTANTS R,          \* number of runtimes
 OPS == {"sort", "cdrsort", "slicepush", "append0", "restsort", "macroarg", "define", "read", "reload",
         "slicefull", "slicetail", "slicecdr", "slicelist", "quotecmp",
         \* the literal crossing a function-application boundary before it reaches the in-place sort
-        "applyrest", "applycdr", "applyreq", "funcallopt", "mapsort", "foldsort"}
+        "applyrest", "applycdr", "applyreq", "funcallopt", "mapsort", "foldsort",
+        \* Go-level configuration of one runtime's copy of a registered builtin
+        "hostwiden", "hostcall"}
 LIT == <<3, 1, 2>>
 
 VARIABLES prog,      \* Program region: the literal's backing
@@ -62,7 +70,7 @@ Sorted(s) == SortSeq(s, LAMBDA a, b : a < b)
 TailOf(s) == SubSeq(s, 2, Len(s))
 
 \* result of an operation given the literal's current content and the runtime's counter
-Result(op, lit, counter) ==
+Result(op, lit, counter, wide) ==
   CASE op = "sort" -> Sorted(lit)
     [] op = "cdrsort" -> Sorted(TailOf(lit))
     [] op = "restsort" -> Sorted(TailOf(lit))
@@ -81,28 +89,32 @@ Result(op, lit, counter) ==
     [] op = "define" -> <<counter + 1>>
     [] op = "read" -> lit
     [] op = "reload" -> <<0>>
+    [] op = "hostwiden" -> <<1>>
+    [] op = "hostcall" -> IF wide THEN <<6>> ELSE <<-1>>
 
-RECURSIVE SoloRun(_, _, _)
-SoloRun(script, i, counter) ==
+RECURSIVE SoloRun(_, _, _, _)
+SoloRun(script, i, counter, wide) ==
   IF i > Len(script) THEN <<>>
-  ELSE <<Result(script[i], LIT, counter)>> \o
-       SoloRun(script, i + 1, IF script[i] = "define" THEN counter + 1 ELSE IF script[i] = "reload" THEN 0 ELSE counter)
-Solo(script) == SoloRun(script, 1, 0)
+  ELSE <<Result(script[i], LIT, counter, wide)>> \o
+       SoloRun(script, i + 1, IF script[i] = "define" THEN counter + 1 ELSE IF script[i] = "reload" THEN 0 ELSE counter,
+               wide \/ script[i] = "hostwiden")
+Solo(script) == SoloRun(script, 1, 0, FALSE)
 
 \* scripts are chosen operation by operation (the same behaviours as choosing them up front, one initial state)
 Init == /\ prog = LIT /\ hdrs = {} /\ sched = <<>>
-        /\ rt = [r \in 1..R |-> [script |-> <<>>, pc |-> 1, counter |-> 0, results |-> <<>>]]
+        /\ rt = [r \in 1..R |-> [script |-> <<>>, pc |-> 1, counter |-> 0, results |-> <<>>, wide |-> FALSE]]
 
 Step(r) == \E op \in OPS :
   LET me == [rt[r] EXCEPT !.script = Append(@, op)] IN
   /\ rt[r].pc <= LEN
-  /\ LET res == Result(op, prog, me.counter)
+  /\ LET res == Result(op, prog, me.counter, me.wide)
          writes == ~COW /\ op \in {"sort", "append0", "slicefull", "slicelist", "quotecmp", "macroarg", "applyrest", "funcallopt", "mapsort", "foldsort"}        \* in-place sort through the literal
          prog2 == IF writes THEN Sorted(prog) ELSE prog IN
      /\ prog' = prog2
      /\ hdrs' = hdrs \cup {[rt |-> r, sealed |-> (COW \/ op \notin {"slicepush", "append0", "slicefull", "slicetail", "slicecdr"})]}
      /\ rt' = [rt EXCEPT ![r] = [me EXCEPT !.pc = @ + 1, !.results = Append(@, res),
-                                          !.counter = IF op = "define" THEN @ + 1 ELSE IF op = "reload" THEN 0 ELSE @]]
+                                          !.counter = IF op = "define" THEN @ + 1 ELSE IF op = "reload" THEN 0 ELSE @,
+                                          !.wide = @ \/ op = "hostwiden"]]
      /\ sched' = Append(sched, r)
 Done == \A r \in 1..R : rt[r].pc > LEN
 Emit == /\ EMIT /\ Done /\ Len(sched) = R * LEN
